@@ -2,6 +2,8 @@ package main
 
 import (
 	"fmt"
+	"go/printer"
+	"go/token"
 	"os"
 	"strings"
 )
@@ -30,6 +32,11 @@ func init() {
 		fi := c.P.Func(rel, recv, name)
 		if fi == nil {
 			fmt.Println("not found")
+			return
+		}
+		if os.Getenv("VERIF_DUMP_SRC") != "" {
+			printer.Fprint(os.Stdout, token.NewFileSet(), fi.Decl)
+			fmt.Println()
 			return
 		}
 		f := c.P.FlowOfFunc(fi)
